@@ -321,13 +321,13 @@ def main(run):
         for dim, pars in settings:
             q = [np.array([0.01, 0.05, 0.1])] if dim == "1d" else [np.array([0.03, -0.05, 0.08]), np.array([0.04, 0.05, -0.02])]
             k64 = m64.make_kernel(q); k32 = m32.make_kernel(q)
-            try:
-                a = np.asarray(call_kernel(k64, dict(pars), cutoff=1e-5)); b = np.asarray(call_kernel(k32, dict(pars), cutoff=1e-5))
-            finally:
-                k64.release(); k32.release()
-            agree += 1
-            if not np.allclose(a, b, rtol=5e-3, atol=1e-7 * float(np.abs(a).max())):
-                run.add(Finding("C15:single:%s" % name, "%s (%s, %s): float32 build %s vs float64 %s" % (name, dim, sorted(pars), b, a), dict(model=name, dim=dim, pars=pars)))
+            # the weight cutoff is an argument of the kernel too: the default, and one that really trims a 12-point mesh
+            for cut_ in ((1e-5, 2e-2) if any(k_.endswith("_pd") for k_ in pars) else (1e-5,)):
+                a = np.asarray(call_kernel(k64, dict(pars), cutoff=cut_)); b = np.asarray(call_kernel(k32, dict(pars), cutoff=cut_))
+                agree += 1
+                if not np.allclose(a, b, rtol=5e-3, atol=1e-7 * float(np.abs(a).max())):
+                    run.add(Finding("C15:single:%s" % name, "%s (%s, %s, cutoff %g): float32 build %s vs float64 %s" % (name, dim, sorted(pars), cut_, b, a), dict(model=name, dim=dim, pars=pars, cutoff=cut_)))
+            k64.release(); k32.release()
     # models that lean on the special-function library (which has separate float and double code paths), with arguments
     # of either sign
     for name, pars in [("pringle", dict(alpha=-0.001, beta=-0.02)), ("pringle", dict(alpha=0.002, beta=0.03))] + \
